@@ -197,12 +197,18 @@ package utils
 //@ ensures #nil: err == nil ==> !result
 
 //@ func errors.As
-//@ trusted "stdlib: false for a nil error (chains not modelled)"
+//@ trusted "stdlib: false for a nil error, true when err itself has the target's type (chains not modelled)"
 //@ pure
 //@ ensures #nil: err == nil ==> !result
+//@ ensures #shortRead: (typeis(err, "@/executor/wal.ShortReadError") && typeis(target, "*@/executor/wal.ShortReadError")) ==> result
+//@ ensures #replayErr: (typeis(err, "@/executor/wal.ReplayError") && typeis(target, "*@/executor/wal.ReplayError")) ==> result
 
 //@ import goio io
 //@ globalfact #eofNonNil: goio.EOF != nil
 // The modelled file is smaller than 100 GB (keeps 1000*size, the replay sanity bound, inside int64 and inside the
 // slice-capacity assumption).
 //@ globalfact #fileSize: 0 <= fileSize && fileSize <= 100000000000
+
+//@ func (error).Error
+//@ trusted "formatting an error writes no program state"
+//@ pure
